@@ -49,14 +49,17 @@ class C10(Prop):
             sys = gs.gen_system(rng, mrange=(2, 4), nrange=(2, 6), finite_ub=True, Kkind=rng.choice(["none", "scalar", "vector"]))
             m = sys["m"]
             S = rng.randint(1, 8 if tier == "quick" else 50)
-            scen = rng.choice(["all-inside", "mixed", "mixed", "far"])
+            scen = rng.choice(["all-inside", "mixed", "mixed", "far", "far-neg"])
             B = []
             for _ in range(S):
-                want = {"all-inside": "inside", "mixed": rng.choice(["inside", "outside"]), "far": rng.choice(["outside", "far"])}[scen]
+                want = {"all-inside": "inside", "mixed": rng.choice(["inside", "outside"]), "far": rng.choice(["outside", "far"]), "far-neg": rng.choice(["outside", "far"])}[scen]
                 got = gs.gen_target_regime(rng, sys, want)
                 if got is None:
                     break
-                B.append(np.asarray(got[1]).tolist())
+                bb = np.asarray(got[1], dtype=float).copy()
+                if scen == "far-neg" and (len(B) == 0 or rng.random() < 0.5):
+                    bb[rng.randrange(m)] = -rng.randint(1, 8) / 4        # so far outside in the chromatic direction that one capture is negative
+                B.append(bb.tolist())
             if len(B) != S:
                 continue
             neutral = None if rng.random() < 0.6 else [rng.randint(4, 12) / 8 for _ in range(m)]
